@@ -111,7 +111,7 @@ struct Builder {
                 for (int i = 0; i < n; i++) {
                     Value<C> e;
                     if (!build(e)) return false;
-                    if (e.IsUndefined()) {
+                    if (e.Type() == ValueType::Undefined) {
                         // an Undefined element: append a placeholder and reset it
                         out += Value<C>{ValueType::Null};
                         out.RemoveIndex(SizeT(out.Size() - 1));
